@@ -9,6 +9,7 @@ plus the return address.
 -/
 import AsmjitVerif.Lemmas.FrameArith
 import AsmjitVerif.Lemmas.FrameX86WF
+import AsmjitVerif.Lemmas.FrameA64Items
 namespace AsmjitVerif.Frame
 
 /-- side conditions on what the user / the register allocator puts into a frame before `finalize` -/
@@ -504,5 +505,284 @@ example : entryOk exFrame.finalize (initState .x64 (0x40000000 - 8)) = true := b
 example : x86Prolog exFrame.finalize
     = [.push 3, .push 5, .push 12, .push 13, .push 14, .push 15, .mov 5 4, .andImm 4 (-32), .sub 4 224, .stGp 4 164 5] := by
   decide
+
+/-!
+Part 3 (AArch64).  Full-strength statement (FALSE on the pinned tree, open finding C07-a64-dynalign):
+
+    theorem a64_prolog_body_epilog : ∀ g, LayoutIn g → (AArch64 convention facts) → … same conclusion as on x86 …
+
+The prolog / epilog of `a64emithelper.cpp` implement neither dynamic alignment nor an SA register other
+than `sp`; `a64_dynalign_witness` proves the negation at the witness.  The `_partial` theorem carries the
+extra hypotheses `A64In.align` (final alignment stays 16 < minimum dynamic alignment 32) and `A64In.sa`
+(SA register unset or `sp`), which exclude exactly that class.
+-/
+
+structure A64In (g : Frame) : Prop where
+  arch : g.arch = .a64
+  sr0 : g.srSize 0 = 8 ∧ g.srAlign 0 = 16
+  sr1 : (g.srSize 1 = 8 ∨ g.srSize 1 = 16) ∧ g.srAlign 1 = 16
+  sr23 : g.srSize 2 = 0 ∧ g.srSize 3 = 0 ∧ g.srAlign 2 = 8 ∧ g.srAlign 3 = 1
+  presSp : (g.preserved 0).testBit 31 = false
+  presFpLr : (g.preserved 0).testBit 29 = true ∧ (g.preserved 0).testBit 30 = true
+  pres23 : ∀ gi, 2 ≤ gi → g.preserved gi = 0
+  /-- excludes the open finding: no dynamic alignment … -/
+  align : g.natAlign = 16 ∧ g.finalAlign = 16 ∧ g.minDynAlign = 32
+  /-- … and no stack-argument base register other than `sp` -/
+  sa : g.saRegId = 0xFF ∨ g.saRegId = 31
+  cleanup : g.calleeCleanup = 0
+
+theorem a64_wf_of_finalize (g : Frame) (hin : LayoutIn g) (ha : A64In g) : A64WF g.finalize := by
+  have lay := finalize_layout_full g hin
+  have harch := ha.arch
+  obtain ⟨s0a, s0b⟩ := ha.sr0
+  obtain ⟨s1a, s1b⟩ := ha.sr1
+  obtain ⟨s2a, s3a, s2b, s3b⟩ := ha.sr23
+  obtain ⟨hN, hA, hM⟩ := ha.align
+  have hsp : g.arch.spId = 31 := by rw [harch]; rfl
+  have hlr : g.arch.lrId = some 30 := by rw [harch]; rfl
+  have hfpid : g.arch.fpId = 29 := by rw [harch]; rfl
+  have hnda : g.hasDA = false := by unfold Frame.hasDA; rw [hM, hA]; decide
+  have hras : g.fin1.retAddrSize = 0 := by unfold Frame.retAddrSize; simp only [Frame.fin1, hlr]; rfl
+  have hsaC : g.saC = 31 := by
+    unfold Frame.saC
+    simp only [hsp, hnda, Bool.false_eq_true, false_and, if_false]
+    rcases ha.sa with h | h <;> rw [h] <;> simp
+  have hsaId : g.fin1.saRegId = 31 := by show u8 g.saC = 31; rw [hsaC]; rfl
+  have hd0 : g.fin1.dirty 0 = u32 g.dirty0C := rfl
+  have hdirtyFp : g.hasFP = true → (g.fin1.dirty 0).testBit 29 = true ∧ (g.fin1.dirty 0).testBit 30 = true := by
+    intro hfp
+    rw [hd0, tb_u32 _ 29 (by omega), tb_u32 _ 30 (by omega)]
+    unfold Frame.dirty0C
+    simp only [hsp, hfpid, hlr, hfp, if_true, hsaC, ne_eq, not_true_eq_false, if_false]
+    exact ⟨tb_or_left _ _ _ (tb_or_bit _ 29), tb_or_bit _ 30⟩
+  have hsaved (gi r : Nat) : (g.finalize.saved gi).testBit r = ((g.fin1.dirty gi).testBit r && (g.preserved gi).testBit r) := by
+    show (g.fin1.dirty gi &&& g.preserved gi).testBit r = _
+    rw [Nat.testBit_and]
+  have hfpSaved : g.finalize.hasFP = true → (g.finalize.saved 0).testBit 29 = true ∧ (g.finalize.saved 0).testBit 30 = true := by
+    intro hfp
+    have hfp' : g.hasFP = true := by
+      have : g.finalize.hasFP = g.hasFP := by
+        show (if g.fin1.alignedVecC then g.attrs ||| 0x40 else g.attrs).testBit 4 = _
+        split
+        · exact attrs_or40 _ 4 (by omega)
+        · rfl
+      rw [← this]; exact hfp
+    obtain ⟨d1, d2⟩ := hdirtyFp hfp'
+    rw [hsaved, hsaved, d1, d2, ha.presFpLr.1, ha.presFpLr.2]; exact ⟨rfl, rfl⟩
+  have h31 : (g.finalize.saved 0).testBit 31 = false := by rw [hsaved, ha.presSp, Bool.and_false]
+  obtain ⟨i1, i2, i3, i4, i5, i6, i7, i8⟩ :=
+    a64_items_facts g.finalize harch ⟨s0a, s0b⟩ ⟨s1a, s1b⟩ hfpSaved h31
+  -- save-area sizes
+  have hn0 := nSaved_le g.finalize 0
+  have hn1 := nSaved_le g.finalize 1
+  have hgs0 : g.fin1.groupSaveSize 0 = (g.finalize.nSaved 0 / 2) * 16 + (g.finalize.nSaved 0 % 2) * 16 := by
+    unfold Frame.groupSaveSize popcnt32
+    show alignUp (u32 (g.finalize.nSaved 0 * g.srSize 0)) (g.srAlign 0) = _
+    rw [s0a, s0b]
+    have : u32 (g.finalize.nSaved 0 * 8) = g.finalize.nSaved 0 * 8 := Nat.mod_eq_of_lt (by omega)
+    rw [this, show (16 : Nat) = 2 ^ 4 by rfl, alignUp_pow2 _ 4 (by omega) (by omega)]
+    omega
+  have hgs1 : g.fin1.groupSaveSize 1 = (g.finalize.nSaved 1 / 2) * (g.srSize 1 * 2) + (g.finalize.nSaved 1 % 2) * 16 := by
+    unfold Frame.groupSaveSize popcnt32
+    show alignUp (u32 (g.finalize.nSaved 1 * g.srSize 1)) (g.srAlign 1) = _
+    rw [s1b]
+    rcases s1a with h | h <;> rw [h]
+    · have : u32 (g.finalize.nSaved 1 * 8) = g.finalize.nSaved 1 * 8 := Nat.mod_eq_of_lt (by omega)
+      rw [this, show (16 : Nat) = 2 ^ 4 by rfl, alignUp_pow2 _ 4 (by omega) (by omega)]
+      omega
+    · have : u32 (g.finalize.nSaved 1 * 16) = g.finalize.nSaved 1 * 16 := Nat.mod_eq_of_lt (by omega)
+      rw [this, show (16 : Nat) = 2 ^ 4 by rfl, alignUp_pow2 _ 4 (by omega) (by omega)]
+      omega
+  have hgs2 : g.fin1.groupSaveSize 2 = 0 := by
+    unfold Frame.groupSaveSize
+    show alignUp (u32 (_ * g.srSize 2)) (g.srAlign 2) = 0
+    rw [s2a, s2b, Nat.mul_zero]; decide
+  have hgs3 : g.fin1.groupSaveSize 3 = 0 := by
+    unfold Frame.groupSaveSize
+    show alignUp (u32 (_ * g.srSize 3)) (g.srAlign 3) = 0
+    rw [s3a, s3b, Nat.mul_zero]; decide
+  have hpush : ∀ gi, hasPushPop g.fin1.arch gi = (decide (gi = 0) || decide (gi = 1)) := by
+    intro gi; show hasPushPop g.arch gi = _; rw [harch]; rfl
+  have hs1b : g.srSize 1 * 2 ≤ 32 := by rcases s1a with h | h <;> omega
+  have hb1 : g.finalize.nSaved 1 / 2 * (g.srSize 1 * 2) ≤ 16 * 32 :=
+    Nat.mul_le_mul (by omega) hs1b
+  have hpp : g.finalize.ppSize = a64Total g.finalize := by
+    show g.fin1.ppSizeC = _
+    rw [i1, show g.finalize.srSize 1 = g.srSize 1 from rfl]
+    unfold Frame.ppSizeC Frame.saveSizeSum u16 u32
+    rw [range4]
+    simp only [List.foldl, hpush, hgs0, hgs1]
+    generalize g.finalize.nSaved 1 / 2 * (g.srSize 1 * 2) = X at hb1 ⊢
+    simp
+    omega
+  have hxs : g.finalize.xSize = 0 := by
+    show g.fin1.xSizeC = 0
+    unfold Frame.xSizeC Frame.saveSizeSum u16 u32
+    rw [range4]
+    simp [List.foldl, hpush, hgs2, hgs3]
+  have hpp16 : g.finalize.ppSize % 16 = 0 := by
+    rw [hpp, i1]
+    rcases s1a with h | h <;> rw [show g.finalize.srSize 1 = g.srSize 1 from rfl, h] <;> omega
+  have hdaOff : g.finalize.daOff = invalidOff := by
+    show (if g.fin1.daSlotC then _ else invalidOff) = invalidOff
+    have : g.fin1.daSlotC = false := by show (g.hasDA && !g.hasFP) = false; rw [hnda]; rfl
+    rw [this]; rfl
+  obtain ⟨hsm1, hsm2⟩ := lay.small
+  rw [hras] at hsm1
+  obtain ⟨ap1, ap2⟩ := lay.adjPlain hnda
+  rw [hras] at ap2
+  have hal := lay.aligned (Or.inr (Or.inr (Or.inr hras)))
+  rw [hras] at hal
+  have hA' : g.fin1.finalAlign = 16 := hA
+  rw [hA'] at hal
+  have htot := lay.total
+  have hkeys_mem : ∀ gi r, (gi, r) ∈ keysOf (a64Items g.finalize) ↔
+      ((gi = 0 ∧ r ∈ bitsAsc (g.finalize.saved 0) 32) ∨ (gi = 1 ∧ r ∈ bitsAsc (g.finalize.saved 1) 32)) := by
+    intro gi r
+    rw [i5, List.mem_append, List.mem_map, List.mem_map]
+    constructor
+    · rintro (⟨x, hx, he⟩ | ⟨x, hx, he⟩)
+      · obtain ⟨e1, e2⟩ := Prod.mk.inj he
+        left; rw [← e1, ← e2]; exact ⟨rfl, (mem_a64GpIds _ hfpSaved x).mp hx⟩
+      · obtain ⟨e1, e2⟩ := Prod.mk.inj he
+        right; rw [← e1, ← e2]; exact ⟨rfl, hx⟩
+    · rintro (⟨e1, hr⟩ | ⟨e1, hr⟩)
+      · left; exact ⟨r, (mem_a64GpIds _ hfpSaved r).mpr hr, by rw [e1]⟩
+      · right; exact ⟨r, hr, by rw [e1]⟩
+  exact {
+    arch := harch
+    noDA := hnda
+    sa := hsaId
+    align := ⟨hA, hN⟩
+    cleanup := ha.cleanup
+    localFits := by
+      have h1 := lay.localFits
+      have h2 := lay.noDaSlot hdaOff
+      show g.finalize.localOff + g.finalize.localSize ≤ g.finalize.ppOff
+      have : g.finalize.localSize = g.fin1.localSize := rfl
+      omega
+    adj := ⟨ap1, by rw [ap1]; omega⟩
+    total := ⟨htot, by rw [ap2, Nat.add_zero]⟩
+    pei := ⟨hpp.symm, hpp16, hsm1⟩
+    first := fun it rest h => by
+      have hoff := i4 it rest h
+      have hasc := i2
+      have hend := i3
+      rw [h] at hasc hend
+      simp only [itemsEnd] at hend
+      obtain ⟨_, hasc2⟩ := hasc
+      rw [hoff, Nat.zero_add] at hasc2 hend
+      refine ⟨hoff, hasc2, by rw [hpp]; exact hend, (i7 it (by rw [h]; simp)).2.1⟩
+    empty := fun h => by rw [hpp]; exact i8 h
+    nodup := by
+      rw [i5, List.nodup_append]
+      refine ⟨?_, ?_, ?_⟩
+      · rw [List.Nodup, List.pairwise_map]
+        exact List.Pairwise.imp (fun hab h => hab (Prod.mk.inj h).2) (a64GpIds_nodup _)
+      · rw [List.Nodup, List.pairwise_map]
+        exact List.Pairwise.imp (fun hab h => hab (Prod.mk.inj h).2) (bitsAsc_nodup _ _)
+      · intro x hx y hy
+        rw [List.mem_map] at hx hy
+        obtain ⟨_, _, rfl⟩ := hx
+        obtain ⟨_, _, rfl⟩ := hy
+        intro h; exact absurd (Prod.mk.inj h).1 (by decide)
+    noSp := by
+      intro h
+      rcases (hkeys_mem 0 31).mp h with ⟨_, hr⟩ | ⟨h1, _⟩
+      · rw [mem_bitsAsc, h31] at hr; exact absurd hr.2 (by simp)
+      · exact absurd h1 (by decide)
+    mv := i6
+    keys := fun gi r hr => by
+      rw [hkeys_mem, mem_bitsAsc, mem_bitsAsc]
+      constructor
+      · rintro (⟨e, _, h⟩ | ⟨e, _, h⟩) <;> subst e <;> exact ⟨by omega, h⟩
+      · rintro ⟨hg, h⟩
+        have : gi = 0 ∨ gi = 1 := by omega
+        rcases this with e | e <;> subst e
+        · exact Or.inl ⟨rfl, hr, h⟩
+        · exact Or.inr ⟨rfl, hr, h⟩
+    sizes := fun it hit => (i7 it hit).1
+    fpMv := fun ⟨it, hit, hm⟩ => (i7 it hit).2.2 hm
+    fpDirty := fun hfp => by
+      have hfp' : g.hasFP = true := by
+        have : g.finalize.hasFP = g.hasFP := by
+          show (if g.fin1.alignedVecC then g.attrs ||| 0x40 else g.attrs).testBit 4 = _
+          split
+          · exact attrs_or40 _ 4 (by omega)
+          · rfl
+        rw [← this]; exact hfp
+      exact (hdirtyFp hfp').1
+    lrPres := ha.presFpLr.2
+    noX := fun gi hgi => by
+      show g.fin1.dirty gi &&& g.preserved gi = 0
+      rw [ha.pres23 gi hgi, Nat.and_zero]
+  }
+
+/-- **C07 on AArch64, partial** (excludes exactly the open finding: dynamic alignment / SA register).
+For every frame handed to `finalize` under `LayoutIn`, `A64In`, every entry state (`sp` 16-byte aligned,
+return address in x30, room for the frame) and EVERY confined body: `stp/str` with the pre-indexed first
+pair, optional `mov x29, sp`, `sub sp`; then `add sp`, `ldp/ldr` in reverse with the post-indexed last pair
+and `ret x30` return to the entry x30 with `sp` = entry `sp` and every callee-saved x/v register restored in
+the bytes the convention declares (8 or 16 for vectors). -/
+theorem a64_prolog_body_epilog_partial (g : Frame) (hin : LayoutIn g) (ha : A64In g) (pro epi : List Instr)
+    (hpro : a64Prolog g.finalize = some pro) (hepi : a64Epilog g.finalize = some epi) (s0 : St)
+    (hentry : entryOk g.finalize s0 = true) (hroom : g.finalize.finalSize ≤ s0.gp 31) (hlr : s0.gp 30 < 256 ^ 8) :
+    ∃ s1, run .a64 pro s0 = some s1 ∧ s1.ret = none
+      ∧ bodyEntryOk g.finalize s0 s1 = true
+      ∧ (∀ x, s0.gp 31 ≤ x → s1.mem x = s0.mem x)
+      ∧ ∀ s2, BodyOK g.finalize (s0.gp 31) s1 s2 →
+          ∃ s3, run .a64 epi s2 = some s3 ∧ exitOk g.finalize s0 s3 = true ∧ s3.mem = s2.mem :=
+  a64_main g.finalize (a64_wf_of_finalize g hin ha) pro epi hpro hepi s0 hentry hroom hlr
+
+/-- the witness frame of the open finding: cdecl, x19 and v8 dirty, 100 bytes of locals aligned to 64 -/
+def a64WitnessFrame : Frame :=
+  (((Frame.init ((initCallConv .a64 0 false).get (by decide)) (tbl4 0x80000 0x100 0 0) 0).setLocalSize 100).setLocalAlign 64).finalize
+
+/-- **negation at the witness** (open finding C07-a64-dynalign): the frame reports dynamic alignment, final
+alignment 64, x29 as SA register and an invalid `sa_offset_from_sp`; yet after the prolog `sp % 64 = 32` for
+the entry stack 0x40000000 and x29 still holds the caller's value. -/
+theorem a64_dynalign_witness :
+    a64WitnessFrame.hasDA = true ∧ a64WitnessFrame.saRegId = 29 ∧ a64WitnessFrame.finalAlign = 64
+    ∧ a64WitnessFrame.saOffSp = invalidOff
+    ∧ (run .a64 ((a64Prolog a64WitnessFrame).getD []) (initState .a64 0x40000000)).map
+        (fun s1 => (s1.gp 31 % 64, decide (s1.gp 29 = initGp 29))) = some (32, true) := by
+  decide
+
+/-- every built-in AArch64 calling convention yields a frame satisfying `A64In` -/
+theorem a64In_init (id : Nat) (win : Bool) (ci : CallConvInfo) (used : Nat → Nat) (arg : Nat)
+    (h : initCallConv .a64 id win = some ci) : A64In (Frame.init ci used arg) := by
+  have key : ci.arch = .a64 ∧ ci.srSize 0 = 8 ∧ ci.srAlign 0 = 16 ∧ (ci.srSize 1 = 8 ∨ ci.srSize 1 = 16) ∧ ci.srAlign 1 = 16
+      ∧ ci.srSize 2 = 0 ∧ ci.srSize 3 = 0 ∧ ci.srAlign 2 = 8 ∧ ci.srAlign 3 = 1
+      ∧ (clearBit (ci.preserved 0) 31).testBit 31 = false ∧ (clearBit (ci.preserved 0) 31).testBit 29 = true
+      ∧ (clearBit (ci.preserved 0) 31).testBit 30 = true ∧ ci.preserved 2 = 0 ∧ ci.preserved 3 = 0
+      ∧ (∀ gi, 4 ≤ gi → ci.preserved gi = 0) ∧ ci.natAlign = 16 ∧ ci.calleePops = false := by
+    simp only [initCallConv] at h
+    split at h <;> injection h with h <;> subst h <;>
+      exact ⟨rfl, rfl, rfl, by decide, rfl, rfl, rfl, rfl, rfl, by decide, by decide, by decide, rfl, rfl,
+        fun gi hgi => by match gi, hgi with | gi + 4, _ => rfl, rfl, rfl⟩
+  obtain ⟨k0, k1, k2, k3, k4, k5, k6, k7, k8, k9, k10, k11, k12, k13, k14, k15, k16⟩ := key
+  exact {
+    arch := k0
+    sr0 := ⟨k1, k2⟩
+    sr1 := ⟨k3, k4⟩
+    sr23 := ⟨k5, k6, k7, k8⟩
+    presSp := by show (clearBit (ci.preserved 0) ci.arch.spId).testBit 31 = false; rw [k0]; exact k9
+    presFpLr := by
+      show (clearBit (ci.preserved 0) ci.arch.spId).testBit 29 = true ∧ (clearBit (ci.preserved 0) ci.arch.spId).testBit 30 = true
+      rw [k0]; exact ⟨k10, k11⟩
+    pres23 := fun gi hgi => by
+      show (if gi = 0 then _ else ci.preserved gi) = 0
+      rw [if_neg (by omega)]
+      by_cases h2 : gi = 2
+      · rw [h2]; exact k12
+      · by_cases h3 : gi = 3
+        · rw [h3]; exact k13
+        · exact k14 gi (by omega)
+    align := by
+      show u8 ci.natAlign = 16 ∧ u8 ci.natAlign = 16 ∧ u8 (u32 (ci.natAlign * 2)) = 32
+      rw [k15]; decide
+    sa := Or.inl rfl
+    cleanup := by show (if ci.calleePops then _ else 0) = 0; rw [k16]; rfl
+  }
 
 end AsmjitVerif.Frame
